@@ -92,6 +92,11 @@ func replayModel(e *Engine, rf *replayFile, v *violation, repo string) {
 			scalar = false
 		}
 	}
+	for _, p := range fn.Params {
+		if isBV(vc.sortOf(vc.resolve(p.Type()))) {
+			scalar = false // bit-vector model values (#x…) are read by the general replay
+		}
+	}
 	if !scalar {
 		heapReplay(e, rf, v, repo, fn)
 		return
